@@ -134,6 +134,13 @@ def run_req(res, ctx, rng, base, idx):
     if lic_state == "has-target":
         for i in stripped:
             if rng.random() < 0.5:
+                if rng.random() < 0.2:
+                    # a link to nowhere sits where the text would go (the shared licence store is not mounted): it is there,
+                    # nothing is added, and nothing appears where it points to
+                    os.symlink(str(base / f"unmounted{idx}" / f"{i}.txt"), licdir / f"{i}.txt")
+                    (base / f"unmounted{idx}").mkdir(exist_ok=True)
+                    existing[i] = True
+                    continue
                 # (an existing file of zero bytes - a placeholder somebody committed - is an existing file like any other)
                 (licdir / f"{i}.txt").write_text(f"pre-existing text of {i}\n" if rng.random() < 0.65 else "")
                 existing[i] = True
